@@ -2,8 +2,10 @@
 sees it), random document libraries, every fault kind at every request index followed by a healthy retry.
 
 * correspondence: the REAL client (sharepoint2text.sharepoint_io.client) and the Lean model (ops c18.run /
-  c18.match / c18.parse) on the same libraries, page sizes, filters and fault schedules; exact comparison of
-  results (order included), error class / status / URL, opened / closed counters and request counts.
+  c18.match / c18.parse / c18.quote) on the same libraries, page sizes, filters, START FOLDERS (folder_paths) and
+  fault schedules; exact comparison of results (order included), of what the generator list_files_filtered
+  DELIVERED BEFORE an exception, of the by-path request URLs, error class / status / URL, opened / closed
+  counters and request counts.
 * search / replay / known_witnesses: an oracle of the PROPERTY STATEMENT on the real client that does not
   use the Lean model: reference tree walk, reference filter (exact rational timestamps), open/close
   accounting of every response object, error family, status + URL of the failed request, healthy retry.
@@ -19,6 +21,7 @@ from collections import Counter
 from datetime import datetime, timedelta, timezone
 from fractions import Fraction
 from urllib.error import HTTPError, URLError
+from urllib.parse import quote as _ref_quote
 from urllib.parse import unquote
 
 from run import Broken, Violation
@@ -30,20 +33,32 @@ RULE = ("library = random folder tree (depth<=4, 0..7 items per folder: files / 
         "with date bounds placed on/next to file timestamps, extensions in mixed case, glob patterns) x fault "
         "(none | every request index k x {HTTPError 4xx/5xx, URLError, invalid JSON, non-object JSON, non-2xx "
         "response}) then a fault-free retry on the same client. distinct = distinct (library, page size, call, "
-        "fault); non-trivial = at least one file below the root or a fault or an active filter")
+        "fault); non-trivial = at least one file below the root or a fault or an active filter. "
+        "45% of the filtered calls carry folder_paths: 1..4 start folders drawn from the library's folders at any depth (names needing "
+        "quoting), decorated with outer slashes, missing folders, paths of files, string-prefix siblings; 80% mutually unrelated, "
+        "20% nested / repeated / '' (known finding folder_paths.duplicate). list_files_filtered is consumed item by item, so the "
+        "files delivered before an exception are compared, too. ~650 (quick) start-folder strings over the library alphabet and "
+        "arbitrary code points go through _get_folder_by_path alone (request URL vs. model vs. RFC 3986 reference)")
 ASSUMPTIONS = [
     "file timestamps carry a zone (Graph emits ...Z); filter bounds are timezone-aware datetimes (a naive bound makes "
     "Python raise TypeError inside FileFilter.matches; not part of the property's quantifier)",
     "folder ids are unique and non-empty (WellAddressed in the theorems)",
     "datetime.fromisoformat / str.lower / fnmatch.fnmatch are parameters of the filter theorems; the driver uses a strict "
     "ISO parser, ASCII lower-casing and a */? glob, and the generators stay inside the domain where these agree with CPython",
-    "folder_paths (start folders addressed by path) are not modelled in Lean; they are covered by the oracle only",
+    "start folders are canonical paths: components separated by single slashes, any number of outer slashes, '' = whole drive; "
+    "'a//b' and '/' (only slashes) are outside the quantifier (what Graph answers for them is the server's business; the fake "
+    "server ignores empty segments and answers 404 for the empty path)",
+    "the healthy server resolves root:/{path} by splitting the request path at literal slashes and percent-decoding every "
+    "segment (RFC 3986; an encoded %2F is data), first child with that name that is a file or a folder; names are unique per folder",
+    "a 404 at the by-path lookup of a start folder is reported as known finding fault.not-raised.folder-lookup-404, not as a fault "
+    "the call must raise; consumers that abandon the generator early (close()) are not modelled",
     "a failure while reading the body of a 2xx response (socket timeout in read()) is not among the property's fault kinds",
     "the JSON -> abstract page conversion of the harness (value missing = [], falsy nextLink = none, ...) mirrors dict.get",
 ]
 TRUSTED = ["fake Graph transport + JSON->abstract conversion in harness/props/c18.py",
            "model S2T/Model/SharePoint.lean of client.py (_send, _get_json, fetch_access_token, get_site_id, "
-           "_list_items_paginated, _get_folders_from_url, _walk_drive_items, FileFilter.matches, _parse_iso_datetime)"]
+           "_list_items_paginated, _get_folders_from_url, _walk_drive_items, FileFilter.matches, _parse_iso_datetime, "
+           "list_files_filtered / _walk_and_filter / _get_folder_by_path as generators, str.strip('/'), urllib.parse.quote(safe='/'))"]
 
 SITE_URL = "https://contoso.sharepoint.com/sites/Verif"      # same values as tools/gen/sharepoint.py
 TENANT = "tenant-0001"
@@ -253,10 +268,12 @@ class FakeGraph:
             d["@odata.nextLink"] = None if a % 2 else ""      # falsy links end the chain
         return (200, json.dumps(d, ensure_ascii=False).encode("utf-8"))
 
-    def _by_path(self, path):
+    def _by_path(self, enc):
+        """path addressing: the request path is split at literal slashes, then every segment is percent-decoded
+        (RFC 3986: an encoded %2F is data, not a delimiter)"""
         nodes = self.lib
         node = None
-        for part in [p for p in path.split("/") if p]:
+        for part in [unquote(p) for p in enc.split("/") if p]:
             node = next((n for n in nodes if n["k"] in ("folder", "file") and n.get("name") == part), None)
             if node is None:
                 return ("http", 404)
@@ -278,7 +295,7 @@ class FakeGraph:
                 fid = None if m.group(1) == "root" else m.group(2)
                 return self._page(fid, int(m.group(4) or 0))
             if rest.startswith("root:/"):
-                return self._by_path(unquote(rest[len("root:/"):]))
+                return self._by_path(rest[len("root:/"):])
         m = re.fullmatch(re.escape(BASE) + r"/\$page/([^/]+)/(\d+)\?sig=a%20b", url)
         if m and self.link_style == 1:
             return self._page(None if m.group(1) == "root" else m.group(1), int(m.group(2)))
@@ -332,7 +349,7 @@ def gen_fault(rng, k, kind=None):
         if rng.random() < 0.35:
             # bytes that are not valid UTF-8: an undecoded gzip payload, a body cut inside a multi-byte character
             return {"k": k, "kind": kind, "enc": "latin-1",
-                    "body": rng.choice(["\x1f\x8b\x08\x00\x00\x00", '{"value": [{"name": "caf\xc3', "\xff\xfe{\x00}\x00", '{"a": "\xe2\x82"}'])}
+                    "body": rng.choice(["\x1f\x8b\x08\x00\x00\x00", '{"value": [{"name": "caf\xc3', "\xff\xfe{\x00}\x00", '{"a": "\xe2\x82'])}
         return {"k": k, "kind": kind, "body": rng.choice(["", "<html>login</html>", '{"value": [', "{'a': 1}", "\ufeff{}x"])}
     if kind == "nonobj":
         return {"k": k, "kind": kind, "body": rng.choice(["[1, 2]", '"x"', "null", "5", "[]", "true"])}
@@ -420,6 +437,54 @@ def gen_filter(rng, lib):
     return f
 
 
+def all_folders(lib, parent=""):
+    out = []
+    for n in lib:
+        if n["k"] == "folder":
+            p = f"{parent}/{n['name']}" if parent else n["name"]
+            out.append(p)
+            out += all_folders(n["children"], p)
+    return out
+
+
+def _related(a, b):
+    """a is b, an ancestor of b or a descendant of b (component-wise; '' is the drive root)"""
+    ca, cb = [x for x in a.strip("/").split("/") if x], [x for x in b.strip("/").split("/") if x]
+    k = min(len(ca), len(cb))
+    return ca[:k] == cb[:k]
+
+
+def gen_folders(rng, lib, independent=None):
+    """start folders: existing folders at any depth (names needing quoting included), decorated with outer slashes,
+    missing folders, paths of files, string-prefix siblings; mostly mutually unrelated, sometimes nested / repeated
+    (known finding folder_paths.duplicate).  Canonical paths only: no empty inner component, not only slashes."""
+    paths = all_folders(lib)
+    files = [(f"{m[4]}/{m[0]}" if m[4] else m[0]) for m in all_files(lib) if m[0] and "/" not in m[0]]
+    independent = rng.random() < 0.8 if independent is None else independent
+    out = []
+    for _ in range(rng.choice([1, 1, 2, 2, 3, 4])):
+        r = rng.random()
+        if paths and r < 0.7:
+            p = rng.choice(paths)
+        elif r < 0.8:
+            p = (rng.choice(paths) + rng.choice(["x", "-old", " 2", "_"])) if paths else "Nope"
+        elif r < 0.88 and files:
+            p = rng.choice(files)
+        elif r < 0.94:
+            p = rng.choice(["Missing", "Documents/None", "ünï/none", "a b/c%d"])
+        elif r < 0.97 and not independent:
+            p = ""                                   # falsy entry: the whole drive
+        else:
+            p = rng.choice(paths) if paths else "Nope"
+        if p:
+            d = rng.random()
+            p = ("/" if d < 0.12 else "//" if d < 0.15 else "") + p + ("/" if 0.08 < d < 0.2 else "")
+        if independent and any(_related(p, q) for q in out):
+            continue
+        out.append(p)
+    return out or [rng.choice(paths) if paths else "Nope"]
+
+
 def build_filter(C, f):
     kw = {}
     for key, name in (("ca", "created_after"), ("cb", "created_before"), ("ma", "modified_after"), ("mb", "modified_before")):
@@ -479,14 +544,17 @@ def meta_tuple(m):
 def do_call(client, call):
     """('ok', [meta tuples]) | ('err', exception)"""
     C, E = _mods()
+    got = []
     try:
         if call["kind"] == "all":
-            res = client.list_all_files()
+            got = [meta_tuple(m) for m in client.list_all_files()]
         else:
-            res = list(client.list_files_filtered(build_filter(C, call["filter"])))
-        return ("ok", [meta_tuple(m) for m in res])
+            # list_files_filtered is a generator: keep what it delivered before an exception
+            for m in client.list_files_filtered(build_filter(C, call["filter"])):
+                got.append(meta_tuple(m))
+        return ("ok", got, [])
     except Exception as e:  # noqa: BLE001 - the property is about which exceptions may escape
-        return ("err", e)
+        return ("err", e, got)
 
 
 def run_real(case):
@@ -500,9 +568,10 @@ def run_real(case):
     with patched_urlopen(fake):
         client = new_client()
         for call in case["calls"]:
-            kind, val = do_call(client, call)
+            kind, val, part = do_call(client, call)
             opened, closed = fake.open_count()     # looked at while `val` (the exception) is still alive
-            o = {"opened": opened, "closed": closed, "reqs": len(fake.urls), "last": fake.urls[-1] if fake.urls else None}
+            o = {"opened": opened, "closed": closed, "reqs": len(fake.urls), "last": fake.urls[-1] if fake.urls else None,
+                 "partial": part, "paths": [u for u in fake.urls if "/drive/root:/" in u]}
             if kind == "ok":
                 o.update(res="ok", files=val)
             else:
@@ -543,7 +612,8 @@ def abs_body(b):
         return {"t": "nonobj"}
     tok, sid = data.get("access_token"), data.get("id")
     return {"t": "obj", "token": tok if (isinstance(tok, str) and tok) else None, "id": sid if isinstance(sid, str) else None,
-            "value": [abs_item(x) for x in data.get("value", [])], "next": data.get("@odata.nextLink") or None}
+            "value": [abs_item(x) for x in data.get("value", [])], "next": data.get("@odata.nextLink") or None,
+            "folder": "folder" in data}
 
 
 def abs_outcome(h):
@@ -562,9 +632,21 @@ def abs_fault(f):
     return {"t": "resp", "status": f["code"], "body": abs_body(f.get("body", "").encode())}
 
 
+def by_path_url(folder_path):
+    """the request the healthy server expects for a start folder: RFC 3986 percent-encoding of the UTF-8 bytes of the
+    path without its outer slashes, `/` kept (reference spelling, independent of client.py)"""
+    return f"{BASE}/sites/{SRV_SITE}/drive/root:/" + _ref_quote(folder_path.strip("/"), safe="/")
+
+
 def driver_request(case):
     fake = FakeGraph(case["lib"], case["page"], case.get("link", 0), case.get("split", 0))
-    table = [[u, abs_outcome(fake.healthy(u))] for u in fake.all_listing_urls()]
+    urls = fake.all_listing_urls()
+    for c in case["calls"]:
+        for fp in (c.get("filter", {}).get("folders") or []) if c["kind"] == "filtered" else []:
+            u = by_path_url(fp)
+            if u not in urls:
+                urls.append(u)
+    table = [[u, abs_outcome(fake.healthy(u))] for u in urls]
     faults = [[case["fault"]["k"], abs_fault(case["fault"])]] if case.get("fault") else []
     calls = []
     for c in case["calls"]:
@@ -572,7 +654,8 @@ def driver_request(case):
             calls.append({"kind": "all"})
         else:
             f = c["filter"]
-            calls.append({"kind": "filtered", "filter": {k: f.get(k) for k in ("ca", "cb", "ma", "mb")} | {"pats": f["pats"], "exts": f["exts"]}})
+            calls.append({"kind": "filtered", "filter": {k: f.get(k) for k in ("ca", "cb", "ma", "mb")}
+                          | {"pats": f["pats"], "exts": f["exts"], "folders": list(f.get("folders") or [])}})
     return {"op": "c18.run", "table": table, "faults": faults, "calls": calls, "fuel": 3 * lib_size(case["lib"]) + 12}
 
 
@@ -585,9 +668,14 @@ def compare(real, model):
         for key in ("opened", "closed", "reqs"):
             if r[key] != m[key]:
                 diffs.append(f"call {i}: {key} impl={r[key]} model={m[key]}")
+        if r["paths"] != m.get("paths"):
+            diffs.append(f"call {i}: start-folder requests impl={r['paths']} model={m.get('paths')}")
         if r["res"] != m["res"]:
             diffs.append(f"call {i}: impl={r['res']}:{r.get('exc', '')}:{r.get('kind', '')} model={m['res']}:{m.get('kind', '')}")
             continue
+        mp = [(f["name"], f["id"], f["created"], f["modified"], f["parent"]) for f in m.get("partial", [])]
+        if r["partial"] != mp:
+            diffs.append(f"call {i}: delivered before the error impl={r['partial'][:4]} ({len(r['partial'])}) model={mp[:4]} ({len(mp)})")
         if r["res"] == "ok":
             mf = [(f["name"], f["id"], f["created"], f["modified"], f["parent"]) for f in m["files"]]
             if r["files"] != mf:
@@ -631,9 +719,21 @@ def oracle_case(case):
             add("fault.response-not-closed" if hit else "listing.response-not-closed",
                 f"{what_call}: {r['opened']} responses opened, {r['closed']} closed after the call"
                 + (f" (fault {fault['kind']} at request {fault['k']})" if hit else ""))
+        if r.get("partial"):
+            # delivered before the exception: nothing wrong, nothing twice (sub-multiset of the expected listing)
+            extra = list((Counter(r["partial"]) - Counter(want)).elements())[:3]
+            if extra:
+                dup = all(x in want for x in extra)
+                key = ("folder_paths." if call["kind"] == "filtered" and call["filter"].get("folders") else "lazy.") + ("duplicate" if dup else "mismatch")
+                add(key, f"{what_call} page_size={case['page']}: delivered before the error ({r.get('exc')}): "
+                    f"{'twice' if dup else 'not part of the listing'}: {extra}")
         if hit:
             if r["res"] == "ok":
-                add("fault.not-raised", f"{what_call}: request {fault['k']} failed ({fault['kind']}) but the call returned {len(r['files'])} files")
+                url_k = fake.urls[fault["k"]]
+                lookup404 = "/drive/root:/" in url_k and fault.get("code") == 404
+                add("fault.not-raised.folder-lookup-404" if lookup404 else "fault.not-raised",
+                    f"{what_call}: request {fault['k']} ({url_k.split('/drive/')[-1]}) failed ({fault['kind']}"
+                    f"{' ' + str(fault['code']) if 'code' in fault else ''}) but the call returned {len(r['files'])} files without raising")
                 continue
             if not r["kind"].startswith(("request", "auth", "family")):
                 add("fault.foreign-exception", f"{what_call}: {fault['kind']} fault (body {fault.get('body')!r}) at request {fault['k']} "
@@ -669,7 +769,8 @@ def oracle_case(case):
 
 
 def _under(parent, folders):
-    return any(parent == fp.strip("/") or parent.startswith(fp.strip("/") + "/") for fp in folders)
+    """the file's parent folder is one of the start folders or below one ('' = falsy entry = the drive root)"""
+    return any(fp == "" or parent == fp.strip("/") or parent.startswith(fp.strip("/") + "/") for fp in folders)
 
 
 def _fdesc(f):
@@ -689,6 +790,10 @@ def gen_case(rng, with_fault=None, filtered=None):
     page = rng.choice([1, 1, 2, 3, 5, 100])
     filtered = rng.random() < 0.5 if filtered is None else filtered
     call = {"kind": "filtered", "filter": gen_filter(rng, lib)} if filtered else {"kind": "all"}
+    if filtered and rng.random() < 0.45:
+        call["filter"]["folders"] = gen_folders(rng, lib)
+        if rng.random() < 0.5:                       # mostly look at the start folders themselves
+            call["filter"].update(ca=None, cb=None, ma=None, mb=None, pats=[], exts=[])
     case = {"lib": lib, "page": page, "link": rng.choice([0, 0, 1]), "split": rng.choice([0, 0, rng.randint(1, 10**6)]), "calls": [call]}
     if with_fault is None:
         with_fault = rng.random() < 0.6
@@ -747,6 +852,12 @@ def _case_stats(ctx, case, real):
     ctx.count("call/" + case["calls"][0]["kind"])
     ctx.count("page_size/" + str(case["page"]) + ("/irregular" if case.get("split") else ""))
     ctx.count("fault/" + (case["fault"]["kind"] if case.get("fault") else "none"))
+    fl = case["calls"][0].get("filter", {}).get("folders") if case["calls"][0]["kind"] == "filtered" else None
+    if fl:
+        ctx.count("start_folders/" + str(len(fl)) + ("" if not any(_related(a, b) for i, a in enumerate(fl) for b in fl[i + 1:]) else "/related"))
+        ctx.count("start_folders/by-path requests/" + str(len(real[0]["paths"])))
+    if any(r.get("partial") for r in real):
+        ctx.count("lazy/files delivered before the error")
     ctx.count("result/" + "+".join(r["res"] if r["res"] == "ok" else r.get("kind", "?").split(":")[0] for r in real))
     n = lib_size(case["lib"])
     ctx.count("lib_nodes/" + ("0-3" if n <= 3 else "4-10" if n <= 10 else "11-25" if n <= 25 else "26+"))
@@ -791,13 +902,16 @@ def correspondence(ctx):
     ex = []
     for _ in range(ctx.n(10, 150)):
         lib = gen_lib(rng, budget=[rng.choice([4, 9, 14])])
-        call = {"kind": "all"} if rng.random() < 0.6 else {"kind": "filtered", "filter": gen_filter(rng, lib)}
+        call = {"kind": "all"} if rng.random() < 0.45 else {"kind": "filtered", "filter": gen_filter(rng, lib)}
+        if call["kind"] == "filtered" and rng.random() < 0.6:
+            call["filter"]["folders"] = gen_folders(rng, lib)
         ex += list(every_fault_cases(rng, lib, rng.choice([1, 2, 3]), call))
     mism += _run_cases(ctx, ex, broken, "every-fault")
     ctx.coverage["exhaustive_fault_cases"] = len(ex)
     # 4. FileFilter.matches and _parse_iso_datetime directly (structured + malformed stream)
     mism += _match_correspondence(ctx, broken)
     mism += _parse_correspondence(ctx, broken)
+    mism += _quote_correspondence(ctx, broken)
     ctx.coverage["mismatches"] = mism
     return {"broken": broken, "violations": violations}
 
@@ -833,6 +947,52 @@ def _match_correspondence(ctx, broken):
             if bad <= 6:
                 broken.append(Broken("correspondence", "c18.match", f"impl={got} full={full!r} model={o}",
                                      case={"match": {"filter": f, "meta": list(m)}}))
+    return bad
+
+
+def _quote_correspondence(ctx, broken):
+    """path -> request URL of `_get_folder_by_path` (strip + percent-encoding) on its own: real method (URL captured),
+    Lean model (op c18.quote) and the reference spelling must agree; names from the library alphabet + arbitrary code points"""
+    C, _ = _mods()
+    rng = ctx.rng
+    alphabet = list("abzAZ09 _.-~/%#+&?=:;,@!$'()*[]{}|\\^`<>\"\t") + ["ü", "é", "日", "本", "ß", "\u00a0", "\u07ff", "\u0800", "\uffff", "\U00010000", "\U0010ffff", "\x7f", "\x80"]
+    strings = ["", "/", "//", "Docs", "/Docs/", "//Docs//", "Docs/My Reports 50%", "a//b", " /x/ ", "/ /", "ünï/日本語", "x+y/a#1", "50% done/"]
+    strings += _FOLDERS + [a + "/" + b for a in _FOLDERS[:6] for b in _FOLDERS[6:]]
+    for _ in range(ctx.n(600, 8000)):
+        n = rng.choice([1, 2, 3, 5, 9, 16])
+        st = "".join(rng.choice(alphabet) if rng.random() < 0.9 else chr(rng.choice([rng.randrange(0x20, 0xD800), rng.randrange(0xE000, 0x110000)]))
+                     for _ in range(n))
+        strings.append(rng.choice(["", "/", "//"]) + st + rng.choice(["", "/", "//"]))
+    seen = []
+
+    def cap(req, timeout=None):
+        seen.append(req.full_url)
+        return FakeResponse([], 200, b'{"id": "X", "folder": {}}')
+
+    cl = C.SharePointRestClient(SITE_URL, C.EntraIDAppCredentials(TENANT, "c", "s"), request_func=cap)
+    cl._access_token = "t"
+    pre = f"{BASE}/sites/S/drive/root:/"
+    reqs, exp = [], []
+    for st in strings:
+        del seen[:]
+        try:
+            cl._get_folder_by_path("S", st)
+            got = seen[-1]
+        except Exception as e:  # noqa: BLE001
+            got = "RAISED:" + type(e).__name__
+        reqs.append({"op": "c18.quote", "s": st})
+        exp.append((st, got))
+    outs = ctx.drive(reqs)
+    bad = 0
+    for (st, got), o in zip(exp, outs):
+        ctx.case(("quote", st), nontrivial=bool(st.strip("/")))
+        ctx.count("quote/" + ("ascii" if st.isascii() else "non-ascii"))
+        ref = pre + _ref_quote(st.strip("/"), safe="/")
+        if not (got == ref == pre + o.get("q", "\0")):
+            bad += 1
+            if bad <= 6:
+                broken.append(Broken("correspondence", "c18.quote", f"start folder {st!r}: impl requests {got!r}, model {pre + o.get('q', '?')!r}, reference {ref!r}",
+                                     case={"quote": st}))
     return bad
 
 
@@ -923,6 +1083,9 @@ def search(ctx, broken):
         if "parse" in c:
             for case in _parse_oracle(c["parse"]):
                 run(case)
+        if "quote" in c:
+            for case in _quote_oracle_cases(c["quote"]):
+                run(case)
         if "match" in c:
             f, m = c["match"]["filter"], c["match"]["meta"]
             lib = [{"k": "file", "name": m[0], "id": m[1], "created": m[2], "modified": m[3], "opt": 15}]
@@ -934,6 +1097,11 @@ def search(ctx, broken):
         run(case)
     for case in _folder_path_cases():
         run(case)
+    for case in _folder_fault_cases():
+        run(case)
+    for nm in _FOLDERS + ["a b", "p%q", "日本語", "x&y=z", "q?", "semi;colon", "[b]", "tilde~", "ä", "\U00010000"]:
+        for case in _quote_oracle_cases(nm + "/" + nm):
+            run(case)
     # then the general streams
     for _ in range(ctx.n(250, 4000)):
         run(gen_case(rng))
@@ -956,7 +1124,31 @@ def replay(ctx, payload):
     return (not vs), "; ".join(f"{v.key}: {v.what}" for v in vs) or "property holds on the recorded case"
 
 
-# ----------------------------------------------------------------------------- folder_paths (oracle only) and known findings
+# ----------------------------------------------------------------------------- folder_paths: fixed oracle cases and known findings
+def _quote_oracle_cases(path):
+    """a library that contains exactly the folder chain `path` (canonical paths only) with one file at the end:
+    the start folder must be found and its file returned with that parent path"""
+    parts = [x for x in path.strip("/").split("/") if x]
+    if not parts or "//" in path.strip("/"):
+        return []
+    f = lambda nm: {"k": "file", "name": nm, "id": "ID" + nm, "created": "2024-01-15T10:00:00Z", "modified": "2024-01-15T10:00:00Z", "opt": 15}  # noqa: E731
+    lib = [f("leaf.txt")]
+    for i, part in enumerate(reversed(parts)):
+        lib = [f(f"side{i}.txt"), {"k": "folder", "name": part, "id": f"QF{i}", "children": lib}]
+    full = {"ca": None, "cb": None, "ma": None, "mb": None, "pats": [], "exts": [], "offs": 0, "folders": [path]}
+    return [{"lib": lib, "page": 2, "link": 0, "calls": [{"kind": "filtered", "filter": full}]}]
+
+
+def _folder_fault_cases():
+    """every fault kind at every request of two start-folder listings (the by-path lookups included), then a retry"""
+    base = _folder_path_cases()
+    rng = random.Random(18)
+    out = []
+    for c in (base[2], base[6]):
+        out += list(every_fault_cases(rng, c["lib"], 1, c["calls"][0]))
+    return out
+
+
 def _folder_path_cases():
     f = lambda nm: {"k": "file", "name": nm, "id": "ID" + nm, "created": "2024-01-15T10:00:00Z", "modified": "2024-01-15T10:00:00Z", "opt": 15}  # noqa: E731
     lib = [f("root.txt"),
@@ -1000,6 +1192,14 @@ def _known_cases():
         c = json.loads(json.dumps(base))
         c["calls"][0]["filter"]["folders"] = folders
         res.append((key, c))
+    # a 404 (HTTPError or plain response) at the by-path lookup of a start folder is taken for "no such folder"
+    for flt, folders in (({"k": 2, "kind": "http4xx", "code": 404, "body": ""}, ["Other", "Docs"]),
+                         ({"k": 2, "kind": "non2xx", "code": 404, "body": ""}, ["Docs/My Reports 50%", "Other"])):
+        c = json.loads(json.dumps(base))
+        c["calls"][0]["filter"]["folders"] = folders
+        c["fault"] = flt
+        c["calls"] = [c["calls"][0], {"kind": "all"}]
+        res.append(("fault.not-raised.folder-lookup-404", c))
     return res
 
 
@@ -1012,7 +1212,7 @@ def known_witnesses(ctx):
             out += vs
         else:
             ctx.notes.append(f"known finding {key}: the committed witness no longer fails — remove it from known_findings.jsonl")
-    # healthy folder_paths cases must hold (oracle only; not modelled in Lean)
+    # healthy folder_paths cases must hold on the real client (oracle; the Lean side is Props/C18_Folders.lean)
     cases = _folder_path_cases()
     if not ctx.thorough and len(cases) > 40:      # the 7 fixed cases + a seed-dependent sample of the generated sets
         cases = cases[:7] + ctx.rng.sample(cases[7:], 33)
